@@ -122,13 +122,30 @@ func c09Expected(c c09Case, before tm.Tree, effectiveDelete bool) (wantA, wantB 
 			return false
 		}
 		pat, dirOnly := strings.TrimSuffix(c.excl, "/"), strings.HasSuffix(c.excl, "/")
+		// rules are matched against the names as they travel: relative to the transfer root, which is the
+		// parent of the source directory when the source is named without trailing slash
+		prefix := ""
+		if c.dirform {
+			prefix = "src/"
+		}
 		parts := strings.Split(p, "/")
-		for i, part := range parts {
-			if part != pat {
+		for i := range parts {
+			q := strings.Join(parts[:i+1], "/")
+			wire := prefix + q
+			match := false
+			switch {
+			case !strings.Contains(pat, "/"):
+				match = parts[i] == pat
+			case strings.HasPrefix(pat, "/"):
+				match = wire == pat[1:]
+			default:
+				match = wire == pat || strings.HasSuffix(wire, "/"+pat)
+			}
+			if !match {
 				continue
 			}
 			// a rule with a trailing slash names directories only
-			if e := before.Find(strings.Join(parts[:i+1], "/")); !dirOnly || (e != nil && e.Type == tm.Dir) {
+			if e := before.Find(q); !dirOnly || (e != nil && e.Type == tm.Dir) {
 				return true
 			}
 		}
@@ -352,8 +369,12 @@ func c09BuildReal(tier string) core.Source {
 						continue
 					}
 					for _, del := range []bool{true, false} {
-						for _, excl := range []string{"", "b", "z", "b/", "z/"} {
+						for _, excl := range []string{"", "b", "z", "b/", "z/", "/b", "d/b", "/d/z", "/src/b", "src/d/b", "/src/d/z"} {
 							if strings.HasSuffix(excl, "/") && tier != "thorough" && (top+sub)%2 != 0 {
+								continue
+							}
+							shaped := strings.Contains(strings.TrimSuffix(excl, "/"), "/") // anchored and path rules
+							if shaped && tier != "thorough" && (top+sub)%3 != 0 {
 								continue
 							}
 							if !del && excl != "" {
@@ -367,7 +388,7 @@ func c09BuildReal(tier string) core.Source {
 									continue
 								}
 								cases = append(cases, c09Case{top: top, sub: sub, kinds: kinds, del: del, ioerr: ioerr, arr: arr, excl: excl})
-								if !ioerr && !strings.HasSuffix(excl, "/") && (tier == "thorough" || (top+3*sub)%5 == 1) {
+								if !ioerr && !strings.HasSuffix(excl, "/") && (tier == "thorough" || (top+3*sub)%5 == 1 || (shaped && (top+sub)%3 == 0)) {
 									cases = append(cases, c09Case{top: top, sub: sub, kinds: kinds, del: del, arr: arr, excl: excl, dirform: true})
 								}
 								if !ioerr && !strings.HasSuffix(excl, "/") && (tier == "thorough" || (top+2*sub)%5 == 0) {
